@@ -559,18 +559,32 @@ impl GraphOptimizer {
                             continue;
                         };
 
-                        let const_id = match const_ids.entry((index, dtype)) {
-                            Entry::Occupied(entry) => *entry.get(),
-                            Entry::Vacant(entry) => {
-                                let Some(const_id) = add_typed_constant(
-                                    &mut graph_mut,
-                                    &infer_result.constants[index],
-                                    dtype,
-                                ) else {
-                                    // Value is not representable in target type
-                                    continue;
-                                };
-                                *entry.insert(const_id)
+                        // Graph outputs must have unique IDs, so a constant
+                        // which replaces an output is never shared.
+                        let const_id = if graph_mut.output_ids().contains(&value_id) {
+                            let Some(const_id) = add_typed_constant(
+                                &mut graph_mut,
+                                &infer_result.constants[index],
+                                dtype,
+                            ) else {
+                                // Value is not representable in target type
+                                continue;
+                            };
+                            const_id
+                        } else {
+                            match const_ids.entry((index, dtype)) {
+                                Entry::Occupied(entry) => *entry.get(),
+                                Entry::Vacant(entry) => {
+                                    let Some(const_id) = add_typed_constant(
+                                        &mut graph_mut,
+                                        &infer_result.constants[index],
+                                        dtype,
+                                    ) else {
+                                        // Value is not representable in target type
+                                        continue;
+                                    };
+                                    *entry.insert(const_id)
+                                }
                             }
                         };
                         graph_mut.replace_value(value_id, const_id);
